@@ -1146,6 +1146,7 @@ func scenFilter(out *scenOut, r *rng, thorough bool) {
 	}
 	filterSignal(out)
 	for _, verdict := range []string{"keep", "drop", "replace"} {
+		filterRepeated(out, verdict)
 		for _, outcome := range []string{"ok", "fails", "release-fails"} {
 			filterExecResult(out, verdict, outcome)
 		}
@@ -1625,5 +1626,85 @@ func filterExecResult(out *scenOut, verdict, outcome string) {
 	if !run.wait(3 * time.Second) {
 		run.p.Kill()
 		run.wait(3 * time.Second)
+	}
+}
+
+// filterRepeated: the same message sent twice in a row is two messages: the filter is consulted for
+// each, and its verdicts (drop the first, keep the second; replace the first, keep the second)
+// are obeyed independently - whatever the library remembers of the first must not matter.
+func filterRepeated(out *scenOut, verdict string) {
+	ctl := newRecCtl()
+	pairs := []tea.Msg{
+		tea.WindowSizeMsg{Width: 80, Height: 24}, tea.FocusMsg{}, tea.BlurMsg{},
+		tea.KeyMsg{Type: tea.KeyRunes, Runes: []rune{'x'}}, tea.MouseMsg{X: 3, Y: 4}, userMsg{6, 0},
+		tea.HideCursor(), tea.EnableReportFocus(), tea.ClearScreen(),
+	}
+	var mu sync.Mutex
+	seen := map[string]int{}
+	inPairs := map[string]bool{}
+	for _, m := range pairs {
+		inPairs[msgName(m)] = true
+	}
+	filter := func(name string, m tea.Msg) tea.Msg {
+		if !inPairs[name] {
+			return m
+		}
+		mu.Lock()
+		seen[name]++
+		n := seen[name]
+		mu.Unlock()
+		if n == 1 {
+			switch verdict {
+			case "drop":
+				return nil
+			case "replace":
+				return userMsg{77, len(name)}
+			}
+		}
+		return m
+	}
+	run := startProgram(ctl, nil, tea.WithInput(nil), tea.WithoutSignalHandler(), loggingFilter(ctl, filter))
+	var want []string
+	for _, m := range pairs {
+		run.p.Send(m)
+		run.p.Send(m)
+		name := msgName(m)
+		switch verdict {
+		case "keep":
+			want = append(want, name, name)
+		case "drop":
+			want = append(want, name)
+		case "replace":
+			want = append(want, fmt.Sprintf("u77.%d", len(name)), name)
+		}
+	}
+	run.p.Send(userMsg{6, 9})
+	want = append(want, "u6.9")
+	waitFor(3*time.Second, func() bool { return ctl.log.has("update-exit", "u6.9") })
+	run.p.Quit()
+	run.wait(5 * time.Second)
+	desc := "every message sent twice in a row (size, focus, blur, key, mouse, user, mode commands); the filter's verdict on the FIRST of each pair: " + verdict + ", on the second: keep"
+	out.record("filter-repeated/"+verdict, desc)
+	mu.Lock()
+	var under []string
+	for _, m := range pairs {
+		if n := seen[msgName(m)]; n != 2 {
+			under = append(under, fmt.Sprintf("%s:%d", msgName(m), n))
+		}
+	}
+	mu.Unlock()
+	if len(under) > 0 {
+		out.fail(finding{Property: "C16", Class: "new", What: "the filter was not consulted exactly once for every message (the same message sent twice)", Input: desc,
+			Expected: "2 consultations per pair", Observed: strings.Join(under, " ")})
+	}
+	var got []string
+	for _, u := range updatesOf(ctl.log.snapshot()) {
+		if !strings.HasPrefix(u, "c:") && u != "nil" {
+			got = append(got, u)
+		}
+	}
+	if strings.Join(got, " , ") != strings.Join(want, " , ") {
+		out.fail(finding{Property: "C16", Class: "new", What: "the filter's verdicts were not obeyed message by message (the same message sent twice)", Input: desc,
+			Expected: strings.Join(want, " , "), Observed: strings.Join(got, " , ")})
 	}
 }
